@@ -22,6 +22,7 @@ const modPath = "github.com/klev-dev/klevdb"
 
 // Prog is the shared program model: syntax + types, SSA, VTA call graph.
 type Prog struct {
+	pureMemo map[*ssa.Function]int
 	Root  string // repository root (absolute)
 	SpecDir string
 	Pkgs  []*packages.Package
